@@ -87,6 +87,11 @@ func c18Header(r *rand.Rand) *tar.Header {
 		h.Typeflag = tar.TypeReg
 		h.Size = []int64{0, 1, 511, 512, 513, 100000, 8589934591, 8589934592, 1 << 40}[r.Intn(9)]
 	}
+	if h.Typeflag != tar.TypeReg && r.Intn(3) == 0 {
+		// header-only members may record a size (pax / star store the size of the link target
+		// for hard links); no data records follow them
+		h.Size = []int64{1, 511, 512, 700, 1024, 2000, 4096}[r.Intn(7)]
+	}
 	if r.Intn(6) == 0 {
 		h.PAXRecords = map[string]string{"VERIF.key": "value", "comment": "é"}
 		h.Format = tar.FormatPAX
@@ -123,6 +128,16 @@ func c18Archive(r *rand.Rand) ([]byte, string) {
 				}
 			}
 			w.Close()
+		} else if h.Typeflag != tar.TypeReg && h.Size > 0 {
+			// the header-only member is followed at once by a regular member with data
+			body := make([]byte, 1500+r.Intn(3000))
+			for i := range body {
+				body[i] = byte(1 + r.Intn(255))
+			}
+			if w.WriteHeader(&tar.Header{Name: "data.bin", Mode: 0o644, Size: int64(len(body))}) == nil {
+				w.Write(body)
+			}
+			w.Close()
 		} else {
 			w.Flush()
 		}
@@ -138,6 +153,9 @@ func c18Archive(r *rand.Rand) ([]byte, string) {
 			continue
 		}
 		fm := fmt.Sprintf("fmt=%v|type=%c|hi=%v", h.Format, h.Typeflag, hasHigh(b[:512]))
+		if h.Typeflag != tar.TypeReg && h.Size > 0 {
+			fm += "|header-only-with-size"
+		}
 		return append([]byte(nil), b...), fm
 	}
 }
